@@ -99,7 +99,7 @@ pub(crate) mod kani_verif {
     #[kani::stub(<[u8; 32] as tinyvec::Array>::default, fast_default)]
     #[kani::stub(crate::lm_ots::keygen::generate_private_key, stub_ots_private)]
     #[kani::stub(crate::lm_ots::keygen::generate_public_key, stub_ots_public)]
-    #[kani::unwind(100)]
+    #[kani::unwind(40)]
     fn c08_tree_h2_n16() {
         check_tree::<16>(LmsAlgorithm::LmsH2, 2);
     }
@@ -109,7 +109,7 @@ pub(crate) mod kani_verif {
     #[kani::stub(<[u8; 32] as tinyvec::Array>::default, fast_default)]
     #[kani::stub(crate::lm_ots::keygen::generate_private_key, stub_ots_private)]
     #[kani::stub(crate::lm_ots::keygen::generate_public_key, stub_ots_public)]
-    #[kani::unwind(100)]
+    #[kani::unwind(70)]
     fn c08_tree_h5_n16() {
         check_tree::<16>(LmsAlgorithm::LmsH5, 5);
     }
